@@ -6,12 +6,14 @@
     leaves: same index paths, and per path the same notification -- or, with
     event-driven emulation, a non-atomic notification with an equal value that
     is not newer.  Hypotheses ([good_unit]) describe the inputs: the
-    notification is addressed to this target, its prefix slice is not shared
-    with spare capacity (DEFECT C03_1), the delete notification built from it
-    addresses its own index path (no origin carried by the update path, no
-    Elem/Element mix), index paths contain no "*", and an index path is used
-    either for atomic containers or for scalars, not both (DEFECT C03_2).
-    Each excluded class is shown to matter by a [_refuted] lemma. *)
+    notification is addressed to this target, the delete notification built
+    from it addresses its own index path (no origin carried by the update path,
+    no Elem/Element mix: [feed_replays_refuted_origin] shows this matters) and
+    index paths contain no "*".  Prefix objects may be shared between
+    notifications with spare slice capacity, and atomic containers and scalars
+    may alternate on one index path: both used to break the statement (DEFECT
+    C03_1, C03_2; [feed_replays_refuted_alias], [feed_replays_refuted_atomic]
+    are stated under the switches of CacheModel.v, now off). *)
 From Gnmi Require Import Base.Prelude CTree.CTreeModel CTree.CTreeProofs Path.PathModel
   Cache.CacheModel Cache.CacheProofs Cache.C02Check Cache.C03Check.
 Local Open Scope Z_scope.
@@ -115,7 +117,9 @@ Qed.
 
 (** * qmatch on concrete (glob-free) paths *)
 
-Definition glob_free (p : path) : bool := forallb (fun k => negb (is_glob k)) p.
+(** plain index paths: no element is "*" and none is empty (an empty first
+    element would be dropped as an absent origin by the delete Reset announces) *)
+Definition glob_free (p : path) : bool := forallb (fun k => negb (is_glob k) && negb (String.eqb k "")) p.
 
 Lemma qmatch_refl q : qmatch q q = true.
 Proof.
@@ -128,6 +132,7 @@ Lemma qmatch_glob_free s q : glob_free s = true -> qmatch s q = is_prefix s q.
 Proof.
   revert q; induction s as [|k r IH]; intros q Hg; [reflexivity|].
   cbn [glob_free forallb] in Hg. apply andb_true_iff in Hg as [Hk Hr].
+  apply andb_true_iff in Hk as [Hk _].
   apply negb_true_iff in Hk. cbn [qmatch is_prefix]. rewrite Hk.
   destruct q as [|a q']; [reflexivity|]. now rewrite (IH q' Hr).
 Qed.
@@ -236,15 +241,13 @@ Definition delete_index (v : notif) : outcome path :=
 
 Section Target.
 Variable name : string.            (* the target *)
-Variable A : path -> bool.         (* index paths used for atomic containers *)
 
 (** a unit (a notification stored as one leaf) the statement admits *)
 Definition good_unit (v : notif) : Prop :=
   feed_target v = name /\
-  alias_write v = None /\                        (* no shared prefix slice with spare capacity *)
   notif_eqb v v = true /\                        (* key maps are maps *)
   delete_index v = stored_index v /\             (* its deletion is announced under its own index path *)
-  forall s, stored_index v = Ok s -> glob_free s = true /\ n_atomic v = A s.
+  forall s, stored_index v = Ok s -> glob_free s = true.
 
 Definition rel (ed : bool) (o1 o2 : option notif) : Prop :=
   match o1, o2 with
@@ -289,15 +292,15 @@ Lemma update_unit_inv t m now n t' r :
 Proof.
   intros (Hwf & Hst & Hrel) Hg E.
   destruct (gnmi_update1_result _ _ _ _ _ Hwf E) as (Hw' & (_ & Hc & _) & Hr).
-  destruct Hg as (Htg & Hal & Hrf & Hdi & Hgs).
+  destruct Hg as (Htg & Hrf & Hdi & Hgs).
   destruct r as [o|e|w]; [|split; [exact Hw'|rewrite Hr, Hc; split; assumption]|exact I].
   destruct Hr as (p & Hi & Hne & Hl & Ho).
   pose proof (proj1 (unit_index_stored n p) Hi) as Hsi.
-  destruct (Hgs p Hsi) as (Hgf & HA).
+  pose proof (Hgs p Hsi) as Hgf.
   assert (Hst' : forall s v, lookup (t_tree t') s = Some v -> good_unit v /\ stored_index v = Ok s).
   { intros s v. rewrite Hl. destruct (path_eqb_spec s p) as [->|].
     - intros Hv; inversion Hv; subst.
-      split; [split; [exact Htg|split; [exact Hal|split; [exact Hrf|split; [exact Hdi|exact Hgs]]]]|exact Hsi].
+      split; [split; [exact Htg|split; [exact Hrf|split; [exact Hdi|exact Hgs]]]|exact Hsi].
     - apply Hst. }
   destruct o as [nd|].
   - subst nd. split; [exact Hw'|]. split; [exact Hst'|]. intros s. rewrite Hc.
@@ -326,21 +329,20 @@ Proof.
     destruct (path_eqb_spec s p) as [->|]; [|apply Hrel].
     specialize (Hrel p). rewrite Hold in Hrel. unfold rel in *.
     destruct (rfind m name p) as [r0|]; [|contradiction].
-    destruct (Hst p old Hold) as ((_ & _ & _ & _ & Hgo) & Hso).
-    destruct (Hgo p Hso) as (_ & HAo).
-    apply (approx_suppressed _ r0 old n Hrel Hed); auto. congruence.
+    destruct Hdef as [Hd|Hd]; [discriminate Hd|].
+    apply (approx_suppressed _ r0 old n Hrel Hed); auto.
 Qed.
 
 (** ** one delete unit *)
 
 Definition sidx (d : notif) : path := match stored_index d with Ok s => s | _ => [] end.
 
+(** every delete notification is built from its own stored notification
+    (DEFECT C03_1 switch off) *)
 Lemma render_alias_free removed ts :
-  Forall (fun d => alias_write d = None) removed ->
   render_deletes removed ts = map (fun d => mk_delete d ts (del_path d)) removed.
 Proof.
-  induction 1 as [|d l Hd _ IH]; [reflexivity|]. cbn [render_deletes map]. rewrite IH, Hd.
-  now destruct defect_c03_1_alias.
+  induction removed as [|d l IH]; [reflexivity|]. cbn [render_deletes map]. now rewrite IH.
 Qed.
 
 Lemma feed_target_mk_delete d ts p : feed_target (mk_delete d ts p) = feed_target d.
@@ -372,19 +374,18 @@ Proof.
                       good_unit d /\ stored_index d = Ok s).
   { intros d Hd. apply Hin in Hd as (s & H1 & H2 & H3). exists s. destruct (Hst s d H1). auto. }
   rewrite render_alias_free.
-  2:{ apply Forall_forall. intros d Hd. destruct (Hgood d Hd) as (s & _ & _ & _ & (_ & Hal & _) & _). exact Hal. }
   split; [exact Hw'|]. split.
   { intros s v. rewrite Hl. unfold sel. destruct (lookup (t_tree t) s) as [w|] eqn:Hw; [|discriminate].
     destruct (qmatch p s && older_than (n_ts n) w); [discriminate|]. intros Hv; inversion Hv; subst. now apply Hst. }
   intros q. rewrite Hc, replay_deletes.
-  2:{ apply Forall_forall. intros d Hd. destruct (Hgood d Hd) as (s & _ & _ & _ & (Htg & _ & _ & Hdi & _) & Hsi).
+  2:{ apply Forall_forall. intros d Hd. destruct (Hgood d Hd) as (s & _ & _ & _ & (Htg & _ & Hdi & _) & Hsi).
       split; [exact Htg|]. unfold sidx. rewrite Hsi. congruence. }
   rewrite Hl. unfold sel.
   destruct (existsb (fun d => qmatch (sidx d) q) removed) eqn:Hex.
   - (* some removed leaf's delete notification covers q *)
     apply existsb_exists in Hex as (d & Hd & Hq).
-    destruct (Hgood d Hd) as (s & Hls & Hps & Hold & (_ & _ & _ & _ & Hgs) & Hsi).
-    unfold sidx in Hq. rewrite Hsi in Hq. destruct (Hgs s Hsi) as (Hgf & _).
+    destruct (Hgood d Hd) as (s & Hls & Hps & Hold & (_ & _ & _ & Hgs) & Hsi).
+    unfold sidx in Hq. rewrite Hsi in Hq. pose proof (Hgs s Hsi) as Hgf.
     rewrite (qmatch_glob_free s q Hgf) in Hq. apply is_prefix_spec in Hq as (x & ->).
     destruct (lookup (t_tree t) (s ++ x)) as [w|] eqn:Hw; [|exact I].
     assert (x = []).
@@ -682,17 +683,17 @@ Qed.
     stores, each with the notification the cache stores -- or, under
     event-driven emulation, with a non-atomic notification of equal value that
     is not newer than the stored one *)
-Theorem feed_replays_target name A cfg (H : hist) :
-  (forall h, In h H -> good_notif name A (snd h)) ->
+Theorem feed_replays_target name cfg (H : hist) :
+  (forall h, In h H -> good_notif name (snd h)) ->
   no_panic (new_target name cfg) H ->
   forall s, rel (cfg_event_driven cfg)
                 (rfind (replay (tfeed (new_target name cfg) H)) name s)
                 (lookup (t_tree (trun (new_target name cfg) H)) s).
 Proof.
   intros Hg Hnp.
-  assert (H0 : Inv name A (new_target name cfg) []).
+  assert (H0 : Inv name (new_target name cfg) []).
   { split; [exact I|]. split; [intros s v Hv; discriminate|intros s; exact I]. }
-  destruct (history_inv name A H _ _ H0 Hg Hnp) as (_ & _ & Hrel).
+  destruct (history_inv name H _ _ H0 Hg Hnp) as (_ & _ & Hrel).
   intros s. specialize (Hrel s). rewrite trun_cfg in Hrel. exact Hrel.
 Qed.
 
@@ -825,19 +826,865 @@ Definition ex_good_hist : hist :=
          [Upd (Some (gp_of_names ["c"])) (Some (TInt 1)) 0; Upd (Some (gp_of_names ["d"])) (Some (TStr "x")) 0]
          [gp_of_names ["b"]] false);
    (0, Notif 5 (wit_pfx ["g"]) None [Upd (Some (gp_of_names ["x"])) (Some (TInt 1)) 0] [] true);
-   (0, Notif 9 (wit_pfx []) None [] [gp_of_names ["a"; "*"]] false)].
-
-Definition ex_A (p : path) : bool := path_eqb p ["g"].
+   (0, wit_upd 6 [] (Some (1%N, 2%N)) "g" 1);                    (* scalar over the atomic container *)
+   (0, wit_upd 6 [] (Some (1%N, 2%N)) "h" 1);                    (* shared prefix object *)
+   (0, Notif 9 (wit_pfx []) None [] [gp_of_names ["*"]] false)].
 
 Example ex_good_hist_ok :
-  (forall h, In h ex_good_hist -> good_notif "t" ex_A (snd h)) /\
+  (forall h, In h ex_good_hist -> good_notif "t" (snd h)) /\
   no_panic (new_target "t" wit_cfg) ex_good_hist /\
-  List.length (tfeed (new_target "t" wit_cfg) ex_good_hist) = 8%nat.
+  List.length (tfeed (new_target "t" wit_cfg) ex_good_hist) = 12%nat.
 Proof.
   split; [|split; [cbv; repeat split; discriminate|vm_compute; reflexivity]].
   intros h Hh m Hm. cbn in Hh.
   repeat (destruct Hh as [<-|Hh]; [cbn in Hm; repeat (destruct Hm as [Hm|Hm]; [inversion Hm; subst; clear Hm|]); try contradiction;
-    (split; [reflexivity|split; [reflexivity|split; [reflexivity|split; [reflexivity|
-       intros s Hs; vm_compute in Hs; inversion Hs; subst; split; reflexivity]]]])|]).
+    (split; [reflexivity|split; [reflexivity|split; [reflexivity|
+       intros s Hs; vm_compute in Hs; inversion Hs; subst; reflexivity]]])|]).
   contradiction.
+Qed.
+
+(** * Several targets, Reset, Remove, Add, Sync, Connect, UpdateMetadata *)
+
+(** a notification of another target does not touch this target's entries *)
+Lemma feed_apply_other m n tgt q :
+  tgt <> feed_target n -> rfind (feed_apply m n) tgt q = rfind m tgt q.
+Proof.
+  intros Hne. assert (Hb : String.eqb tgt (feed_target n) = false) by now apply String.eqb_neq.
+  assert (Hb' : String.eqb (feed_target n) tgt = false) by (rewrite String.eqb_sym; exact Hb).
+  unfold feed_apply. cbv zeta. destruct (n_upd n) as [|u us].
+  - generalize m. induction (n_del n) as [|d ds IH]; intros m0; cbn [fold_left]; [reflexivity|].
+    rewrite IH. destruct (join_prefix_and_path _ d) as [p| |]; try reflexivity. unfold rremove.
+    pose proof (rfind_filter (fun t s => negb (String.eqb t (feed_target n) && qmatch p s)) m0 tgt q) as H.
+    cbv beta in H. refine (eq_trans H _). now rewrite Hb.
+  - destruct (stored_index n) as [p| |]; try reflexivity. cbn [rfind fst snd]. rewrite Hb'. cbn [andb].
+    unfold rremove.
+    pose proof (rfind_filter (fun t s => negb (String.eqb t (feed_target n) &&
+              (if n_atomic n then is_prefix p s else path_eqb p s))) m tgt q) as H.
+    cbv beta in H. refine (eq_trans H _). now rewrite Hb.
+Qed.
+
+Lemma feed_fold_other l : forall m tgt q,
+  Forall (fun x => feed_target x <> tgt) l -> rfind (fold_left feed_apply l m) tgt q = rfind m tgt q.
+Proof.
+  induction l as [|n l IH]; intros m tgt q Hall; [reflexivity|]. cbn [fold_left].
+  apply Forall_cons_iff in Hall as [Hn Hl]. rewrite (IH _ _ _ Hl). apply feed_apply_other. congruence.
+Qed.
+
+(** what gnmiUpdate hands to the client is the notification it was given *)
+Lemma gnmi_update1_fed t now n t' nd : gnmi_update1 t now n = (t', Ok (Some nd)) -> nd = n.
+Proof.
+  unfold gnmi_update1. destruct (n_upd n) as [|u us]; [discriminate|].
+  destruct (unit_index n) as [p| |]; try discriminate.
+  destruct (update_pre t p u) as [t1 [[]| |]]; try discriminate.
+  unfold update_leaf. destruct (CTreeModel.get (t_tree t1) p) as [[old|cs]|].
+  - destruct (leaf_verdict t1 now old n); [discriminate|].
+    destruct (n_atomic n); [intros E; now inversion E|].
+    destruct (n_upd old); [discriminate|].
+    match goal with |- (if ?b then _ else _) = _ -> _ => destruct b end; intros E; now inversion E.
+  - discriminate.
+  - destruct (CTreeModel.add (t_tree t1) p n); intros E; now inversion E.
+Qed.
+
+Section Target2.
+Variable name : string.
+
+Definition ft (x : notif) : Prop := feed_target x = name.
+
+Lemma removed_ft t m n t' removed :
+  Inv name t m -> gnmi_remove t n = (t', Ok removed) ->
+  Forall ft (render_deletes removed (n_ts n)).
+Proof.
+  intros (Hwf & Hst & _) E. destruct (gnmi_remove_spec _ _ _ _ Hwf E) as (_ & _ & Hs).
+  destruct (del_ok n) as [p|]; [|destruct Hs as [_ Hs]; exfalso; eapply Hs; reflexivity].
+  destruct Hs as (_ & removed' & Hr & Hin). inversion Hr; subst removed'.
+  rewrite render_alias_free. apply Forall_forall. intros x Hx. apply in_map_iff in Hx as (d & <- & Hd).
+  apply Hin in Hd as (s & Hl & _). destruct (Hst s d Hl) as ((Htg & _) & _). exact Htg.
+Qed.
+
+Definition AInv2 (m0 : rmap) (a : acc) : Prop :=
+  AInv name m0 a /\ Forall ft (render_feed (a_feed a)).
+
+Lemma multi_updates_inv2 now n m0 us : forall a,
+  a_panic a = None -> AInv2 m0 a ->
+  (forall u, In u us -> good_unit name (clone_with_update n u)) ->
+  a_panic (fold_left (multi_update_step now n) us a) = None ->
+  AInv2 m0 (fold_left (multi_update_step now n) us a).
+Proof.
+  induction us as [|u us IH]; intros a Hp Hinv Hg Hp'; cbn [fold_left] in *; [exact Hinv|].
+  set (a1 := multi_update_step now n a u) in *.
+  assert (Hp1 : a_panic a1 = None).
+  { destruct (a_panic a1) as [w|] eqn:E; [|reflexivity].
+    rewrite (multi_update_panic_sticky now n us a1 w E) in Hp'. congruence. }
+  apply IH; auto; [|intros u' Hu'; apply Hg; now right].
+  destruct Hinv as [Hi Hf]. split.
+  - apply (multi_updates_inv name now n m0 [u] a Hp Hi); [intros u' [<-|[]]; apply Hg; now left|exact Hp1].
+  - subst a1. unfold multi_update_step in *. rewrite Hp in *.
+    destruct (gnmi_update1 (a_t a) now (clone_with_update n u)) as [t' [[nd|]|e|w]] eqn:E; cbn [a_feed]; try exact Hf.
+    rewrite render_feed_app, render_feed_single. cbn [render_group]. apply Forall_app. split; [exact Hf|].
+    constructor; [|constructor]. rewrite (gnmi_update1_fed _ _ _ _ _ E).
+    destruct (Hg u (or_introl eq_refl)) as (Htg & _). exact Htg.
+Qed.
+
+Lemma multi_deletes_inv2 n m0 ds : forall a,
+  a_panic a = None -> AInv2 m0 a ->
+  a_panic (fold_left (multi_delete_step n) ds a) = None ->
+  AInv2 m0 (fold_left (multi_delete_step n) ds a).
+Proof.
+  induction ds as [|d ds IH]; intros a Hp Hinv Hp'; cbn [fold_left] in *; [exact Hinv|].
+  set (a1 := multi_delete_step n a d) in *.
+  assert (Hp1 : a_panic a1 = None).
+  { destruct (a_panic a1) as [w|] eqn:E; [|reflexivity].
+    rewrite (multi_delete_panic_sticky n ds a1 w E) in Hp'. congruence. }
+  apply IH; auto.
+  destruct Hinv as [Hi Hf]. split.
+  - exact (multi_deletes_inv name n m0 [d] a Hp Hi Hp1).
+  - subst a1. unfold multi_delete_step in *. rewrite Hp in *.
+    destruct (gnmi_remove (add_int (a_t a) md_update_count 1) (clone_with_delete n d)) as [t' [rm|e|w]] eqn:E;
+      cbn [a_feed]; try exact Hf.
+    rewrite render_feed_app, render_feed_single. cbn [render_group]. apply Forall_app. split; [exact Hf|].
+    assert (Hinv0 : Inv name (add_int (a_t a) md_update_count 1) (fold_left feed_apply (render_feed (a_feed a)) m0))
+      by (eapply Inv_same; [| |exact Hi]; reflexivity).
+    exact (removed_ft _ _ _ _ _ Hinv0 E).
+Qed.
+
+(** Target.GnmiUpdate: everything handed to the client is addressed to this target *)
+Theorem target_update_ft t m now n t' gs r :
+  Inv name t m -> good_notif name n -> target_gnmi_update t now n = (t', gs, r) ->
+  (forall w, r <> GPanic w) -> Forall ft (render_feed gs).
+Proof.
+  intros Hinv Hg. unfold good_notif, units in Hg. unfold target_gnmi_update.
+  assert (Hsingle : forall k,
+    match gnmi_update1 t now n with
+    | (t1, Panic w) => (finish_ts n false t1, [], GPanic w)
+    | (t1, Err e) => (finish_ts n false t1, [], GErr e)
+    | (t1, Ok None) => (finish_ts n true t1, [], GOk)
+    | (t1, Ok (Some nd)) => (finish_ts n true (add_int t1 md_update_count k), [FUpd nd], GOk)
+    end = (t', gs, r) -> good_unit name n -> Forall ft (render_feed gs)).
+  { intros k E Hgn. destruct (gnmi_update1 t now n) as [t1 [[nd|]|e|w]] eqn:E1; inversion E; subst; try constructor.
+    - rewrite (gnmi_update1_fed _ _ _ _ _ E1). exact (proj1 Hgn).
+    - constructor. }
+  assert (Hmulti : forall us ds,
+    (forall u, In u us -> good_unit name (clone_with_update n u)) ->
+    (let a0 := Acc t [] [] false None in
+     let a1 := fold_left (multi_update_step now n) us a0 in
+     let a2 := fold_left (multi_delete_step n) ds a1 in
+     (finish_ts n (a_ok a2) (a_t a2), a_feed a2,
+      match a_panic a2 with
+      | Some w => GPanic w
+      | None => match a_errs a2 with [] => GOk | es => GErrs es end
+      end)) = (t', gs, r) ->
+    (forall w, r <> GPanic w) -> Forall ft (render_feed gs)).
+  { intros us ds Hgu. cbv zeta.
+    set (a0 := Acc t [] [] false None).
+    remember (fold_left (multi_update_step now n) us a0) as a1 eqn:Ha1.
+    remember (fold_left (multi_delete_step n) ds a1) as a2 eqn:Ha2.
+    intros E Hnp. inversion E; subst t' gs r; clear E.
+    assert (Hp2 : a_panic a2 = None).
+    { destruct (a_panic a2) as [w|]; [exfalso; eapply Hnp; reflexivity|reflexivity]. }
+    assert (Hp1 : a_panic a1 = None).
+    { destruct (a_panic a1) as [w|] eqn:Ep; [|reflexivity].
+      rewrite Ha2, (multi_delete_panic_sticky n ds a1 w Ep) in Hp2. congruence. }
+    assert (H0 : AInv2 m a0) by (split; [exact Hinv|constructor]).
+    rewrite Ha1 in Hp1.
+    pose proof (multi_updates_inv2 now n m us a0 eq_refl H0 Hgu Hp1) as H1. rewrite <- Ha1 in *.
+    rewrite Ha2 in Hp2.
+    pose proof (multi_deletes_inv2 n m ds a1 Hp1 H1 Hp2) as H2. rewrite <- Ha2 in *. exact (proj2 H2). }
+  destruct (n_atomic n).
+  - destruct (n_del n) as [|d ds].
+    + destruct (n_upd n) as [|u us] eqn:Hu.
+      * intros E _; inversion E; subst. constructor.
+      * intros E _. apply (Hsingle _ E). apply Hg. now left.
+    + intros E _; inversion E; subst. constructor.
+  - destruct (n_upd n) as [|u [|u2 us]] eqn:Hu; destruct (n_del n) as [|d [|d2 ds]] eqn:Hd.
+    + intros E _; inversion E; subst. constructor.
+    + destruct (gnmi_remove (add_int t md_update_count 1) n) as [t1 r1] eqn:E.
+      assert (Hinv0 : Inv name (add_int t md_update_count 1) m) by (eapply Inv_same; [| |exact Hinv]; reflexivity).
+      intros E2 Hnp. destruct r1 as [rm|e|w]; inversion E2; subst; clear E2; try constructor.
+      rewrite render_feed_single. cbn [render_group]. exact (removed_ft _ _ _ _ _ Hinv0 E).
+    + apply (Hmulti [] (d :: d2 :: ds)). intros u0 [].
+    + intros E _. apply (Hsingle _ E). apply Hg. now left.
+    + apply (Hmulti [u] [d]). intros u0 Hu0. apply Hg. cbn [map app In] in *. destruct Hu0 as [<-|[]]. now left.
+    + apply (Hmulti [u] (d :: d2 :: ds)).
+      intros u0 Hu0. apply Hg. apply in_or_app. left. now apply (in_map (fun u => UUpd (clone_with_update n u))).
+    + apply (Hmulti (u :: u2 :: us) []).
+      intros u0 Hu0. apply Hg. apply in_or_app. left. now apply (in_map (fun u => UUpd (clone_with_update n u))).
+    + apply (Hmulti (u :: u2 :: us) [d]).
+      intros u0 Hu0. apply Hg. apply in_or_app. left. now apply (in_map (fun u => UUpd (clone_with_update n u))).
+    + apply (Hmulti (u :: u2 :: us) (d :: d2 :: ds)).
+      intros u0 Hu0. apply Hg. apply in_or_app. left. now apply (in_map (fun u => UUpd (clone_with_update n u))).
+Qed.
+
+End Target2.
+
+(** ** the cache's own notifications *)
+
+Lemma good_meta_noti name now k v :
+  name <> "" -> is_glob k = false -> k <> "" ->
+  good_unit name (meta_noti name now k v) /\ stored_index (meta_noti name now k v) = Ok [md_root; k].
+Proof.
+  intros Hn Hk Hk'.
+  assert (Hidx : stored_index (meta_noti name now k v) = Ok [md_root; k]).
+  { unfold stored_index, meta_noti. cbn [n_upd n_atomic n_prefix u_path gp_of_opt].
+    unfold join_prefix_and_path, to_strings, gp_of_names. cbn [gp_target gp_origin gp_elems gp_element map flat_map].
+    unfold nonempty. destruct (String.eqb_spec name ""); [contradiction|]. reflexivity. }
+  split; [|exact Hidx]. split; [reflexivity|]. split.
+  { assert (Htv : tv_eqb v v = true).
+    { destruct v; cbn -[String.eqb Z.eqb]; rewrite ?String.eqb_refl, ?Z.eqb_refl; try reflexivity. now destruct b. }
+    unfold notif_eqb, meta_noti, update_eqb, ogpath_eqb, gpath_eqb, gp_of_names, otv_eqb.
+    cbn -[String.eqb Z.eqb tv_eqb]. rewrite !Z.eqb_refl, !String.eqb_refl, Htv.
+    unfold pelem_eqb, keymap_eqb. cbn -[String.eqb]. rewrite !String.eqb_refl. reflexivity. }
+  split.
+  { rewrite Hidx. unfold delete_index, del_prefix, del_path, meta_noti.
+    cbn [n_upd n_atomic n_prefix u_path gp_of_opt gp_origin gp_target gp_elems gp_element gp_of_names map].
+    cbn [String.eqb andb negb app]. unfold join_prefix_and_path, to_strings.
+    cbn [gp_target gp_origin gp_elems gp_element flat_map]. unfold nonempty.
+    destruct (String.eqb_spec name ""); [contradiction|]. reflexivity. }
+  intros s Hs. rewrite Hidx in Hs. inversion Hs; subst. cbn. rewrite Hk.
+  destruct (String.eqb_spec k ""); [contradiction|]. reflexivity.
+Qed.
+
+Section Target3.
+Variable name : string.
+Hypothesis name_ne : name <> "".
+
+(** state threaded through generateMetaUpdates: target, feed so far, panic *)
+Definition GInv (m0 : rmap) (st : target * list notif * option N) : Prop :=
+  snd st = None ->
+  Inv name (fst (fst st)) (fold_left feed_apply (snd (fst st)) m0) /\
+  Forall (ft name) (snd (fst st)) /\ t_name (fst (fst st)) = name.
+
+Lemma gen_meta_one_inv m0 now k v same st :
+  is_glob k = false -> k <> "" ->
+  GInv m0 st -> GInv m0 (gen_meta_one now k v same st).
+Proof.
+  intros Hk Hk' Hinv. destruct st as [[t feed] [w|]]; [exact Hinv|].
+  unfold gen_meta_one. destruct (name_in k (cfg_excluded (t_cfg t))); [exact Hinv|].
+  destruct v as [val|]; [|exact Hinv].
+  destruct (meta_differs t k same) as [[|]|e|w]; try exact Hinv.
+  2:{ intros H; discriminate H. }
+  destruct (Hinv eq_refl) as (Hi & Hf & Hn). cbn [fst snd] in *.
+  destruct (gnmi_update1 t now (meta_noti (t_name t) now k val)) as [t' r] eqn:E.
+  rewrite Hn in E. destruct (good_meta_noti name now k val name_ne Hk Hk') as (Hg & _).
+  pose proof (update_unit_inv name _ _ _ _ _ _ Hi Hg E) as H.
+  assert (Hn' : t_name t' = name).
+  { destruct (gnmi_update1_spec _ _ _ _ _ (proj1 Hi) E) as (_ & (_ & _ & Hnm) & _). congruence. }
+  destruct r as [[nd|]|e|w]; intros Hp; cbn [fst snd] in *; try discriminate Hp.
+  - rewrite fold_left_app. cbn [fold_left]. split; [exact H|]. split; [|exact Hn'].
+    apply Forall_app. split; [exact Hf|]. constructor; [|constructor].
+    rewrite (gnmi_update1_fed _ _ _ _ _ E). exact (proj1 Hg).
+  - split; [exact H|]. split; assumption.
+  - split; [exact H|]. split; assumption.
+Qed.
+
+Lemma gen_meta_fold_inv m0 now (names : list string)
+  (mk : target * list notif * option N -> string -> option tv)
+  (same : target * list notif * option N -> string -> tv -> option bool) :
+  forallb (fun k => negb (is_glob k) && negb (String.eqb k "")) names = true ->
+  forall st, GInv m0 st ->
+  GInv m0 (fold_left (fun st k => gen_meta_one now k (mk st k) (same st k) st) names st).
+Proof.
+  induction names as [|k names IH]; intros Hall st Hinv; [exact Hinv|]. cbn [fold_left].
+  cbn [forallb] in Hall. apply andb_true_iff in Hall as [Hk Hall]. apply andb_true_iff in Hk as [Hk1 Hk2].
+  apply IH; [exact Hall|]. apply gen_meta_one_inv; auto.
+  - now apply negb_true_iff in Hk1.
+  - apply negb_true_iff in Hk2. now apply String.eqb_neq in Hk2.
+Qed.
+
+Lemma generate_meta_updates_inv m0 t now :
+  Inv name t m0 -> t_name t = name ->
+  GInv m0 (generate_meta_updates t now).
+Proof.
+  intros Hi Hn. unfold generate_meta_updates.
+  apply (gen_meta_fold_inv m0 now md_str_names
+           (fun st k => option_map TStr (md_get_str (t_meta (fst (fst st))) k))
+           (fun st k v => match v with
+                          | TStr s => option_map (String.eqb s) (md_get_str (t_meta (fst (fst st))) k)
+                          | _ => None end)); [reflexivity|].
+  apply (gen_meta_fold_inv m0 now md_int_names
+           (fun st k => option_map TInt (md_get_int (t_meta (fst (fst st))) k))
+           (fun st k v => match v with
+                          | TInt z => option_map (Z.eqb z) (md_get_int (t_meta (fst (fst st))) k)
+                          | _ => None end)); [reflexivity|].
+  apply (gen_meta_fold_inv m0 now md_bool_names
+           (fun st k => option_map TBool (md_get_bool (t_meta (fst (fst st))) k))
+           (fun st k v => match v with
+                          | TBool b => option_map (Bool.eqb b) (md_get_bool (t_meta (fst (fst st))) k)
+                          | _ => None end)); [reflexivity|].
+  intros _. cbn [fst snd fold_left]. split; [exact Hi|]. split; [constructor|exact Hn].
+Qed.
+
+Lemma update_meta_inv m0 t now :
+  Inv name t m0 -> t_name t = name -> GInv m0 (update_meta t now).
+Proof.
+  intros Hi Hn. unfold update_meta. apply generate_meta_updates_inv; [|exact Hn].
+  eapply Inv_same; [| |exact Hi]; reflexivity.
+Qed.
+
+(** ** Reset: the roots are deleted and announced one by one *)
+
+Lemma qmatch_root r s : is_glob r = false -> qmatch [r] s = qmatch [r; "*"] s.
+Proof.
+  intros Hr. cbn [qmatch]. rewrite Hr. destruct s as [|a s']; [reflexivity|].
+  cbn. now rewrite andb_true_r.
+Qed.
+
+Lemma delete_noti_index now r :
+  r <> "" -> join_prefix_and_path (gp_of_opt (n_prefix (delete_noti name r now ["*"])))
+                                  (gp_of_names ["*"]) = Ok [r; "*"].
+Proof.
+  intros Hr. unfold delete_noti. cbn [n_prefix gp_of_opt].
+  unfold join_prefix_and_path, to_strings, gp_of_names. cbn [gp_target gp_origin gp_elems gp_element map flat_map].
+  unfold nonempty. destruct (String.eqb_spec name ""); [contradiction|].
+  destruct (String.eqb_spec r ""); [contradiction|]. reflexivity.
+Qed.
+
+Lemma root_child_stored (tr : tree notif) r :
+  wf_tree tr -> In r (root_children tr) -> exists s v, lookup tr (r :: s) = Some v.
+Proof.
+  destruct tr as [[x|cs]|]; cbn [root_children wf_tree]; try (intros _ []).
+  intros Hwf Hin. apply in_keys_assoc in Hin as (c & Hc).
+  destruct (wf_inhabited c (wf_child _ _ _ Hwf Hc)) as (s & v & Hs).
+  exists s, v. cbn [lookup]. rewrite lookup_branch_cons, Hc. exact Hs.
+Qed.
+
+Lemma reset_roots_inv now roots : forall t m0,
+  Inv name t m0 ->
+  (forall r, In r roots -> is_glob r = false /\ r <> "") ->
+  Inv name (set_tree t (fold_left (fun tr r => fst (CTreeModel.delete tr [r])) roots (t_tree t)))
+      (fold_left feed_apply (map (fun r => delete_noti name r now ["*"]) roots) m0).
+Proof.
+  induction roots as [|r roots IH]; intros t m0 Hi Hr; cbn [fold_left map].
+  - eapply Inv_same; [| |exact Hi]; reflexivity.
+  - destruct (Hr r (or_introl eq_refl)) as (Hg & Hne).
+    destruct Hi as (Hwf & Hst & Hrel).
+    destruct (tree_delete_spec (t_tree t) [r] (fun _ => true) Hwf) as (Hw' & Hl & _ & _).
+    assert (Hi1 : Inv name (set_tree t (fst (CTreeModel.delete (t_tree t) [r])))
+                      (feed_apply m0 (delete_noti name r now ["*"]))).
+    { split; [exact Hw'|]. split.
+      - intros s v. cbn [t_tree set_tree]. unfold CTreeModel.delete. rewrite Hl. unfold sel.
+        destruct (lookup (t_tree t) s) as [w|] eqn:Hw; [|discriminate].
+        destruct (qmatch [r] s && true); [discriminate|]. intros E; inversion E; subst. now apply Hst.
+      - intros s. cbn [t_tree set_tree t_cfg]. unfold CTreeModel.delete. rewrite Hl.
+        rewrite (feed_apply_delete m0 (delete_noti name r now ["*"]) (gp_of_names ["*"]) [r; "*"] name s
+                   eq_refl eq_refl (delete_noti_index now r Hne)).
+        change (feed_target (delete_noti name r now ["*"])) with name. rewrite String.eqb_refl. cbn [andb].
+        rewrite <- (qmatch_root r s Hg). unfold sel. specialize (Hrel s).
+        destruct (qmatch [r] s).
+        + destruct (lookup (t_tree t) s); exact I.
+        + destruct (lookup (t_tree t) s); exact Hrel. }
+    specialize (IH _ _ Hi1 (fun r' Hr' => Hr r' (or_intror Hr'))).
+    eapply Inv_same; [| |exact IH]; reflexivity.
+Qed.
+
+Theorem reset_inv m0 t now t' feed :
+  Inv name t m0 -> t_name t = name -> target_reset t now = (t', feed, None) ->
+  Inv name t' (fold_left feed_apply feed m0) /\ Forall (ft name) feed /\ t_name t' = name.
+Proof.
+  intros Hi Hn. unfold target_reset.
+  set (t1 := set_meta (set_ts t None) (md_clear (t_meta t))).
+  assert (Hi1 : Inv name t1 m0) by (eapply Inv_same; [| |exact Hi]; reflexivity).
+  pose proof (update_meta_inv m0 t1 now Hi1 Hn) as Hg.
+  destruct (update_meta t1 now) as [[t2 f2] [w|]]; [discriminate|].
+  destruct (Hg eq_refl) as (Hi2 & Hf2 & Hn2). cbn [fst snd] in *.
+  intros E; inversion E; subst t' feed; clear E.
+  set (roots := filter (fun r => negb (String.eqb r md_root)) (root_children (t_tree t2))).
+  assert (Hroots : forall r, In r roots -> is_glob r = false /\ r <> "").
+  { intros r Hr. apply filter_In in Hr as [Hr _].
+    destruct (root_child_stored _ r (proj1 Hi2) Hr) as (s & v & Hs).
+    destruct Hi2 as (_ & Hst & _). destruct (Hst _ _ Hs) as ((_ & _ & _ & Hgs) & Hsi).
+    specialize (Hgs _ Hsi). cbn [glob_free forallb] in Hgs. apply andb_true_iff in Hgs as [Hk _].
+    apply andb_true_iff in Hk as [H1 H2]. split; [now apply negb_true_iff in H1|].
+    apply negb_true_iff in H2. now apply String.eqb_neq in H2. }
+  rewrite Hn2, fold_left_app. split; [exact (reset_roots_inv now roots t2 _ Hi2 Hroots)|]. split; [|exact Hn2].
+  apply Forall_app. split; [exact Hf2|]. apply Forall_forall. intros x Hx.
+  apply in_map_iff in Hx as (r & <- & _). reflexivity.
+Qed.
+
+End Target3.
+
+(** * The cache: several targets *)
+
+Definition cfeed (mf : mfeed) : list notif :=
+  match mf with MGroups gs => render_feed gs | MBag l => l end.
+
+(** every target's tree is stood for by the replayed map; an absent target
+    has no replayed entry *)
+Definition CInv (c : cache) (m : rmap) : Prop :=
+  NoDup (keys (c_targets c)) /\
+  (forall name t, assoc name (c_targets c) = Some t -> name <> "" /\ t_name t = name /\ Inv name t m) /\
+  (forall name, assoc name (c_targets c) = None -> forall s, rfind m name s = None).
+
+(** the calls the statement admits: notifications whose units are good for the
+    target they name; Add only of an absent target (KF-C03-4) *)
+Definition good_op (c : cache) (o : cop) : Prop :=
+  match o with
+  | OUpd _ n => good_notif (feed_target n) n
+  | OAdd t => t <> "" /\ assoc t (c_targets c) = None
+  | ORemove _ t => t <> ""
+  | _ => True
+  end.
+
+Lemma Inv_rfind_ext name t m m' :
+  (forall s, rfind m' name s = rfind m name s) -> Inv name t m -> Inv name t m'.
+Proof.
+  intros Hext (A1 & A2 & A3). split; [exact A1|]. split; [exact A2|]. intros s. rewrite Hext. apply A3.
+Qed.
+
+Lemma c_targets_set_target c name t : c_targets (set_target c name t) = aset name t (c_targets c).
+Proof. reflexivity. Qed.
+
+Lemma CInv_update c m name t' m' :
+  CInv c m -> name <> "" -> t_name t' = name -> Inv name t' m' ->
+  (forall y s, y <> name -> rfind m' y s = rfind m y s) ->
+  CInv (set_target c name t') m'.
+Proof.
+  intros (Hnd & Hs & Hn) Hne Hnm Hi Hext. unfold CInv. rewrite c_targets_set_target. split; [now apply NoDup_keys_aset|].
+  split.
+  - intros y t. rewrite assoc_aset. destruct (String.eqb_spec y name) as [->|Hy].
+    + intros E; inversion E; subst. auto.
+    + intros E. destruct (Hs y t E) as (A & B & C). split; [exact A|]. split; [exact B|].
+      apply (Inv_rfind_ext y t m m'); [intros s; now apply Hext|exact C].
+  - intros y. rewrite assoc_aset. destruct (String.eqb_spec y name) as [->|Hy]; [discriminate|].
+    intros E s. rewrite Hext by exact Hy. now apply Hn.
+Qed.
+
+Lemma ft_other name l y : Forall (ft name) l -> y <> name -> Forall (fun x => feed_target x <> y) l.
+Proof. intros H Hy. eapply Forall_impl; [|exact H]. unfold ft. intros x ->. congruence. Qed.
+
+Lemma good_meta_unit name now k v :
+  name <> "" -> is_glob k = false -> k <> "" -> good_notif name (meta_noti name now k v).
+Proof.
+  intros Hn Hk Hk' m Hm. unfold units, meta_noti in Hm. cbn in Hm. destruct Hm as [Hm|[]].
+  inversion Hm; subst. exact (proj1 (good_meta_noti name now k v Hn Hk Hk')).
+Qed.
+
+(** Target.GnmiUpdate keeps the name of the target *)
+Lemma target_gnmi_update_name t now n :
+  wf_tree (t_tree t) -> t_name (fst (fst (target_gnmi_update t now n))) = t_name t.
+Proof.
+  intros Hwf.
+  assert (Hu : forall t0 m t1 r, wf_tree (t_tree t0) -> gnmi_update1 t0 now m = (t1, r) ->
+             t_name t1 = t_name t0 /\ wf_tree (t_tree t1)).
+  { intros t0 m t1 r Hw E. destruct (gnmi_update1_spec _ _ _ _ _ Hw E) as (A & (_ & _ & B) & _). auto. }
+  assert (Hr : forall t0 m t1 r, wf_tree (t_tree t0) -> gnmi_remove t0 m = (t1, r) ->
+             t_name t1 = t_name t0 /\ wf_tree (t_tree t1)).
+  { intros t0 m t1 r Hw E. destruct (gnmi_remove_spec _ _ _ _ Hw E) as (A & (_ & _ & B) & _). auto. }
+  assert (Hfin : forall b t1, t_name t1 = t_name t -> t_name (finish_ts n b t1) = t_name t).
+  { intros b t1 H. now rewrite (proj2 (finish_ts_cfg n b t1)). }
+  assert (Hmu : forall us a, wf_tree (t_tree (a_t a)) ->
+            t_name (a_t (fold_left (multi_update_step now n) us a)) = t_name (a_t a) /\
+            wf_tree (t_tree (a_t (fold_left (multi_update_step now n) us a)))).
+  { induction us as [|u us IH]; intros a Hw; cbn [fold_left]; [auto|].
+    assert (H1 : t_name (a_t (multi_update_step now n a u)) = t_name (a_t a) /\
+                 wf_tree (t_tree (a_t (multi_update_step now n a u)))).
+    { unfold multi_update_step. destruct (a_panic a); [auto|].
+      destruct (gnmi_update1 (a_t a) now (clone_with_update n u)) as [t1 [[nd|]|e|w]] eqn:E;
+        cbn [a_t]; destruct (Hu _ _ _ _ Hw E); auto. }
+    destruct H1 as [A B]. destruct (IH _ B) as [C D]. split; [congruence|exact D]. }
+  assert (Hmd : forall ds a, wf_tree (t_tree (a_t a)) ->
+            t_name (a_t (fold_left (multi_delete_step n) ds a)) = t_name (a_t a) /\
+            wf_tree (t_tree (a_t (fold_left (multi_delete_step n) ds a)))).
+  { induction ds as [|d ds IH]; intros a Hw; cbn [fold_left]; [auto|].
+    assert (H1 : t_name (a_t (multi_delete_step n a d)) = t_name (a_t a) /\
+                 wf_tree (t_tree (a_t (multi_delete_step n a d)))).
+    { unfold multi_delete_step. destruct (a_panic a); [auto|].
+      destruct (gnmi_remove _ _) as [t1 [rm|e|w]] eqn:E; cbn [a_t];
+        destruct (Hr (add_int (a_t a) md_update_count 1) _ _ _ Hw E); auto. }
+    destruct H1 as [A B]. destruct (IH _ B) as [C D]. split; [congruence|exact D]. }
+  unfold target_gnmi_update.
+  destruct (n_atomic n).
+  - destruct (n_del n); [|reflexivity]. destruct (n_upd n); [reflexivity|].
+    destruct (gnmi_update1 t now n) as [t1 [[nd|]|e|w]] eqn:E; cbn [fst]; apply Hfin; exact (proj1 (Hu _ _ _ _ Hwf E)).
+  - destruct (n_upd n) as [|u [|u2 us]]; destruct (n_del n) as [|d [|d2 ds]]; cbn [fst];
+      try reflexivity;
+      try (destruct (gnmi_update1 t now n) as [t1 [[nd|]|e|w]] eqn:E; cbn [fst]; apply Hfin; exact (proj1 (Hu _ _ _ _ Hwf E)));
+      try (destruct (gnmi_remove _ n) as [t1 [rm|e|w]] eqn:E; cbn [fst]; exact (proj1 (Hr (add_int t md_update_count 1) _ _ _ Hwf E)));
+      try (apply Hfin;
+           match goal with
+           | |- t_name (a_t (fold_left (multi_delete_step n) ?ds (fold_left (multi_update_step now n) ?us ?a0))) = _ =>
+               destruct (Hmu us a0 Hwf) as [A B]; destruct (Hmd ds _ B) as [C _]; rewrite C, A; reflexivity
+           end).
+Qed.
+
+(** a call on one target through Target.GnmiUpdate *)
+Lemma on_target_inv c m name t now n t' gs r :
+  CInv c m -> assoc name (c_targets c) = Some t -> good_notif name n ->
+  target_gnmi_update t now n = (t', gs, r) -> (forall w, r <> GPanic w) ->
+  CInv (set_target c name t') (fold_left feed_apply (render_feed gs) m).
+Proof.
+  intros Hc Ha Hg E Hnp. destruct (proj1 (proj2 Hc) name t Ha) as (Hne & Hnm & Hi).
+  apply (CInv_update c m name t'); auto.
+  - pose proof (target_gnmi_update_name t now n (proj1 Hi)) as H. rewrite E in H. cbn [fst] in H. congruence.
+  - exact (target_update_inv name _ _ _ _ _ _ _ Hi Hg E Hnp).
+  - intros y s Hy. apply feed_fold_other. apply (ft_other name); [|exact Hy].
+    exact (target_update_ft name _ _ _ _ _ _ _ Hi Hg E Hnp).
+Qed.
+
+Lemma remove_noti_index name now :
+  name <> "" ->
+  join_prefix_and_path (gp_of_opt (n_prefix (delete_noti name "" now ["*"]))) (gp_of_names ["*"]) = Ok ["*"].
+Proof.
+  intros Hn. unfold delete_noti. cbn [n_prefix gp_of_opt].
+  unfold join_prefix_and_path, to_strings, gp_of_names. cbn [gp_target gp_origin gp_elems gp_element map flat_map].
+  unfold nonempty. destruct (String.eqb_spec name ""); [contradiction|]. reflexivity.
+Qed.
+
+Lemma update_meta_target_inv c m name t now t' feed :
+  CInv c m -> assoc name (c_targets c) = Some t -> update_meta t now = (t', feed, None) ->
+  CInv (set_target c name t') (fold_left feed_apply feed m).
+Proof.
+  intros Hc Ha E. destruct (proj1 (proj2 Hc) name t Ha) as (Hne & Hnm & Hi).
+  pose proof (update_meta_inv name Hne m t now Hi Hnm) as Hg. rewrite E in Hg.
+  destruct (Hg eq_refl) as (Hi' & Hf & Hn'). cbn [fst snd] in *.
+  apply (CInv_update c m name t'); auto.
+  intros y s Hy. apply feed_fold_other. now apply (ft_other name).
+Qed.
+
+(** every call keeps the invariant *)
+Theorem cache_step_inv c m o c' r mf :
+  CInv c m -> good_op c o -> mstep c o = (c', r, mf) -> r <> RPanic ->
+  CInv c' (fold_left feed_apply (cfeed mf) m).
+Proof.
+  intros Hc Hg. destruct o as [now n|now tgt|now tgt|tgt|now tgt|now tgt|now tgt msg|now]; cbn [mstep good_op] in *.
+  - (* GnmiUpdate *)
+    unfold cache_gnmi_update. destruct (n_prefix n) as [pr|] eqn:Hp.
+    2:{ intros E _; inversion E; subst. exact Hc. }
+    destruct (assoc (gp_target pr) (c_targets c)) as [t|] eqn:Ha.
+    2:{ intros E _; inversion E; subst. exact Hc. }
+    destruct (target_gnmi_update t now n) as [[t' gs] g] eqn:E1. intros E Hnp; inversion E; subst; clear E.
+    assert (Hft : feed_target n = gp_target pr) by (unfold feed_target; now rewrite Hp).
+    rewrite Hft in Hg. apply (on_target_inv c m _ t now n t' gs g Hc Ha Hg E1).
+    intros w ->. apply Hnp. reflexivity.
+  - (* Reset *)
+    unfold cache_reset. destruct (assoc tgt (c_targets c)) as [t|] eqn:Ha.
+    2:{ intros E _; inversion E; subst. exact Hc. }
+    destruct (target_reset t now) as [[t' feed] p] eqn:E1. intros E Hnp; inversion E; subst; clear E.
+    destruct p as [w|]; [exfalso; apply Hnp; reflexivity|].
+    destruct (proj1 (proj2 Hc) tgt t Ha) as (Hne & Hnm & Hi).
+    destruct (reset_inv tgt Hne m t now t' feed Hi Hnm E1) as (Hi' & Hf & Hn').
+    apply (CInv_update c m tgt t'); auto.
+    intros y s Hy. apply feed_fold_other. now apply (ft_other tgt).
+  - (* Remove *)
+    unfold cache_remove. intros E _; inversion E; subst; clear E. cbn [cfeed fold_left].
+    destruct Hc as (Hnd & Hs & Hn). split; [cbn [c_targets]; now apply NoDup_keys_adel|].
+    assert (Hrf : forall y s, rfind (feed_apply m (delete_noti tgt "" now ["*"])) y s =
+                              if String.eqb y tgt then None else rfind m y s).
+    { intros y s.
+      rewrite (feed_apply_delete m (delete_noti tgt "" now ["*"]) (gp_of_names ["*"]) ["*"] y s
+                 eq_refl eq_refl (remove_noti_index tgt now Hg)).
+      change (feed_target (delete_noti tgt "" now ["*"])) with tgt.
+      destruct (String.eqb y tgt); reflexivity. }
+    split.
+    + intros y t. cbn [c_targets]. rewrite (assoc_adel _ _ _ Hnd).
+      destruct (String.eqb_spec y tgt) as [->|Hy]; [discriminate|]. intros E.
+      destruct (Hs y t E) as (A & B & C). split; [exact A|]. split; [exact B|].
+      apply (Inv_rfind_ext y t m); [|exact C]. intros s. rewrite Hrf.
+      destruct (String.eqb_spec y tgt); [contradiction|reflexivity].
+    + intros y. cbn [c_targets]. rewrite (assoc_adel _ _ _ Hnd). intros E s. rewrite Hrf.
+      destruct (String.eqb_spec y tgt) as [Heq|Hy]; [reflexivity|]. now apply Hn.
+  - (* Add of an absent target *)
+    intros E _; inversion E; subst; clear E. cbn [cfeed fold_left]. destruct Hg as [Hne Habs].
+    unfold cache_add. destruct Hc as (Hnd & Hs & Hn). split; [cbn [c_targets]; now apply NoDup_keys_aset|].
+    split.
+    + intros y t. cbn [c_targets]. rewrite assoc_aset. destruct (String.eqb_spec y tgt) as [->|Hy].
+      * intros E; inversion E; subst. split; [exact Hne|]. split; [reflexivity|].
+        split; [exact I|]. split; [intros s v Hv; discriminate|].
+        intros s. cbn. rewrite (Hn tgt Habs s). exact I.
+      * apply Hs.
+    + intros y. cbn [c_targets]. rewrite assoc_aset. destruct (String.eqb_spec y tgt); [discriminate|]. apply Hn.
+  - (* Sync *)
+    unfold cache_sync, cache_on_target. destruct (assoc tgt (c_targets c)) as [t|] eqn:Ha.
+    2:{ intros E _; inversion E; subst. exact Hc. }
+    destruct (target_gnmi_update t now (meta_noti tgt now md_sync (TBool true))) as [[t' gs] g] eqn:E1.
+    intros E Hnp; inversion E; subst; clear E.
+    destruct (proj1 (proj2 Hc) tgt t Ha) as (Hne & _ & _).
+    apply (on_target_inv c m tgt t now (meta_noti tgt now md_sync (TBool true)) t' gs g Hc Ha);
+      [|exact E1|intros w ->; apply Hnp; reflexivity].
+    apply good_meta_unit; [exact Hne|reflexivity|discriminate].
+  - (* Connect: two calls *)
+    unfold cache_connect, cache_on_target. destruct (assoc tgt (c_targets c)) as [t|] eqn:Ha.
+    2:{ intros E _; inversion E; subst. exact Hc. }
+    destruct (target_gnmi_update t now (meta_noti tgt now md_connected (TBool true))) as [[t1 f1] r1] eqn:E1.
+    destruct (proj1 (proj2 Hc) tgt t Ha) as (Hne & _ & _).
+    assert (Hg1 : good_notif tgt (meta_noti tgt now md_connected (TBool true)))
+      by (apply good_meta_unit; [exact Hne|reflexivity|discriminate]).
+    destruct r1 as [|e|es|w].
+    4:{ intros E Hnp; inversion E; subst. exfalso. apply Hnp. reflexivity. }
+    all: destruct (target_gnmi_update t1 now (delete_noti tgt "" now [md_root; md_connect_error])) as [[t2 f2] r2] eqn:E2;
+      intros E Hnp; inversion E; subst; clear E;
+      (assert (Hc1 : CInv (set_target c tgt t1) (fold_left feed_apply (render_feed f1) m))
+        by (apply (on_target_inv c m tgt t now _ t1 f1 _ Hc Ha Hg1 E1); intros w; discriminate));
+      (assert (Ha1 : assoc tgt (c_targets (set_target c tgt t1)) = Some t1)
+        by (rewrite c_targets_set_target, assoc_aset, String.eqb_refl; reflexivity));
+      (assert (Hg2 : good_notif tgt (delete_noti tgt "" now [md_root; md_connect_error]))
+        by (intros x Hx; cbn in Hx; destruct Hx as [Hx|[]]; discriminate Hx));
+      (assert (Hnp2 : forall w, r2 <> GPanic w)
+        by (intros w ->; apply Hnp; reflexivity));
+      pose proof (on_target_inv _ _ tgt t1 now _ t2 f2 r2 Hc1 Ha1 Hg2 E2 Hnp2) as H2;
+      cbn [cfeed]; rewrite render_feed_app, fold_left_app;
+      (replace (set_target c tgt t2) with (set_target (set_target c tgt t1) tgt t2); [exact H2|]);
+      unfold set_target; cbn [c_cfg c_targets]; f_equal;
+      clear; induction (c_targets c) as [|[k v] l IH]; cbn; [now rewrite String.eqb_refl|];
+      destruct (String.eqb tgt k) eqn:Hk; cbn; rewrite ?Hk; [reflexivity|now rewrite IH].
+  - (* ConnectError *)
+    unfold cache_connect_error, cache_on_target. destruct (assoc tgt (c_targets c)) as [t|] eqn:Ha.
+    2:{ intros E _; inversion E; subst. exact Hc. }
+    destruct (target_gnmi_update t now (meta_noti tgt now md_connect_error (TStr msg))) as [[t' gs] g] eqn:E1.
+    intros E Hnp; inversion E; subst; clear E.
+    destruct (proj1 (proj2 Hc) tgt t Ha) as (Hne & _ & _).
+    apply (on_target_inv c m tgt t now (meta_noti tgt now md_connect_error (TStr msg)) t' gs g Hc Ha);
+      [|exact E1|intros w ->; apply Hnp; reflexivity].
+    apply good_meta_unit; [exact Hne|reflexivity|discriminate].
+  - (* UpdateMetadata: every target in turn *)
+    unfold cache_update_metadata.
+    assert (Hfold : forall (l : list (string * target)) (st : cache * list notif * option N),
+      (snd st = None -> CInv (fst (fst st)) (fold_left feed_apply (snd (fst st)) m)) ->
+      let st' := fold_left (fun (st : cache * list notif * option N) (kt : string * target) =>
+        match st with
+        | (c', feed, Some w) => st
+        | (c', feed, None) =>
+            match assoc (fst kt) (c_targets c') with
+            | None => st
+            | Some t => let '(t', f, p) := update_meta t now in (set_target c' (fst kt) t', feed ++ f, p)
+            end
+        end) l st in
+      snd st' = None -> CInv (fst (fst st')) (fold_left feed_apply (snd (fst st')) m)).
+    { induction l as [|kt l IH]; intros st Hst; cbn [fold_left]; [exact Hst|]. apply IH.
+      destruct st as [[c0 feed] [w|]]; [exact Hst|].
+      destruct (assoc (fst kt) (c_targets c0)) as [t|] eqn:Ha; [|exact Hst].
+      destruct (update_meta t now) as [[t' f] p] eqn:E1. cbn [fst snd]. intros ->.
+      rewrite fold_left_app. exact (update_meta_target_inv c0 _ (fst kt) t now t' f (Hst eq_refl) Ha E1). }
+    intros E Hnp. pose proof (Hfold (c_targets c) (c, [], None) (fun _ => Hc)) as HF. cbv zeta in HF.
+    clear Hfold. cbn [fst snd] in HF.
+    set (F := fold_left _ (c_targets c) (c, [], None)) in *.
+    destruct F as [[c1 l1] p1]. inversion E; subst; clear E. cbn [fst snd cfeed] in *.
+    apply HF. destruct p1; [exfalso; apply Hnp; reflexivity|reflexivity].
+Qed.
+
+(** ** histories of calls on the cache *)
+
+Definition cstep (c : cache) (o : cop) : cache := fst (fst (mstep c o)).
+
+Definition crun (c : cache) (ops : list cop) : cache := fold_left cstep ops c.
+
+(** everything handed to the callback registered with SetClient, in order *)
+Fixpoint cfeed_hist (c : cache) (ops : list cop) : list notif :=
+  match ops with
+  | [] => []
+  | o :: ops' => cfeed (snd (mstep c o)) ++ cfeed_hist (cstep c o) ops'
+  end.
+
+Fixpoint good_ops (c : cache) (ops : list cop) : Prop :=
+  match ops with
+  | [] => True
+  | o :: ops' => good_op c o /\ snd (fst (mstep c o)) <> RPanic /\ good_ops (cstep c o) ops'
+  end.
+
+Lemma cache_history_inv ops : forall c m,
+  CInv c m -> good_ops c ops -> CInv (crun c ops) (fold_left feed_apply (cfeed_hist c ops) m).
+Proof.
+  induction ops as [|o ops IH]; intros c m Hc Hg; cbn [crun fold_left cfeed_hist]; [exact Hc|].
+  destruct Hg as (Hg1 & Hg2 & Hg3). rewrite fold_left_app. fold (crun (cstep c o) ops).
+  apply IH; [|exact Hg3]. unfold cstep in *.
+  destruct (mstep c o) as [[c' r] mf] eqn:E. cbn [fst snd] in *.
+  exact (cache_step_inv c m o c' r mf Hc Hg1 E Hg2).
+Qed.
+
+Lemma new_cache_inv cfg names :
+  NoDup names -> ~ In "" names -> CInv (new_cache cfg names) [].
+Proof.
+  intros _ Hne. unfold new_cache, CInv. cbn [c_targets].
+  assert (H : forall l acc,
+            NoDup (keys acc) ->
+            (forall k, In k l -> k <> "") ->
+            (forall name t, assoc name acc = Some t -> name <> "" /\ t = new_target name cfg) ->
+            NoDup (keys (fold_left (fun m k => aset k (new_target k cfg) m) l acc)) /\
+            (forall name t, assoc name (fold_left (fun m k => aset k (new_target k cfg) m) l acc) = Some t ->
+                            name <> "" /\ t = new_target name cfg)).
+  { induction l as [|k l IH]; intros acc Hnd Hl Hacc; cbn [fold_left]; [auto|].
+    apply IH; [now apply NoDup_keys_aset|intros k' Hk'; apply Hl; now right|].
+    intros nm t. rewrite assoc_aset. destruct (String.eqb_spec nm k) as [->|].
+    - intros E; inversion E; subst. split; [apply Hl; now left|reflexivity].
+    - apply Hacc. }
+  assert (A0 : forall name t, assoc name (@nil (string * target)) = Some t -> name <> "" /\ t = new_target name cfg)
+    by (intros nm t E; discriminate E).
+  assert (A1 : forall k, In k names -> k <> "") by (intros k Hk ->; exact (Hne Hk)).
+  destruct (H names [] (NoDup_nil _) A1 A0) as [A B].
+  split; [exact A|]. split.
+  - intros nm t E. destruct (B nm t E) as [H1 ->]. split; [exact H1|]. split; [reflexivity|].
+    split; [exact I|]. split; [intros s v Hv; discriminate|intros s; exact I].
+  - intros nm _ s. reflexivity.
+Qed.
+
+(** C03 over the whole cache: for every history of GnmiUpdate, Reset, Remove,
+    Add (of absent targets), Sync, Connect, ConnectError and UpdateMetadata
+    calls over any number of targets -- hence at every prefix of it --
+    replaying the callback stream reproduces every target's stored leaves (in
+    the sense of [rel]), metadata leaves included, and holds nothing for a
+    target that is absent *)
+Theorem feed_replays_cache cfg names ops :
+  NoDup names -> ~ In "" names -> good_ops (new_cache cfg names) ops ->
+  forall name,
+    match assoc name (c_targets (crun (new_cache cfg names) ops)) with
+    | Some t => forall s, rel (cfg_event_driven (t_cfg t))
+                              (rfind (replay (cfeed_hist (new_cache cfg names) ops)) name s)
+                              (lookup (t_tree t) s)
+    | None => forall s, rfind (replay (cfeed_hist (new_cache cfg names) ops)) name s = None
+    end.
+Proof.
+  intros Hnd Hne Hg name.
+  destruct (cache_history_inv ops _ _ (new_cache_inv cfg names Hnd Hne) Hg) as (_ & Hs & Hn).
+  destruct (assoc name (c_targets (crun (new_cache cfg names) ops))) as [t|] eqn:Ha.
+  - destruct (Hs name t Ha) as (_ & _ & (_ & _ & Hrel)). exact Hrel.
+  - exact (Hn name Ha).
+Qed.
+
+(** non-vacuity: two targets, every kind of call *)
+Definition ex_ops : list cop :=
+  [OUpd 0 (wit_upd 1 ["a"] None "b" 1);
+   OUpd 0 (Notif 1 (Some (gp_prefix "u" "" ["a"])) None [Upd (Some (gp_of_names ["b"])) (Some (TInt 7)) 0] [] false);
+   OSync 1 "t"; OConnectError 1 "u" "boom"; OConnect 2 "u";
+   OUpd 0 (wit_upd 2 ["a"] None "b" 1);
+   OUpdateMeta 3;
+   OReset 4 "t";
+   OUpd 0 (wit_upd 5 ["a"] None "c" 2);
+   ORemove 5 "u"; OAdd "u";
+   OUpd 0 (Notif 9 (wit_pfx []) None [] [gp_of_names ["*"]] false)].
+
+Example ex_ops_good :
+  good_ops (new_cache wit_cfg ["t"; "u"]) ex_ops /\
+  List.length (cfeed_hist (new_cache wit_cfg ["t"; "u"]) ex_ops) = 53%nat.
+Proof.
+  split; [|vm_compute; reflexivity].
+  cbn [good_ops ex_ops].
+  repeat match goal with
+         | |- _ /\ _ => split
+         | |- True => exact I
+         | |- _ <> RPanic => vm_compute; discriminate
+         | |- good_op _ (OUpd _ _) =>
+             intros x Hx; cbn in Hx; repeat (destruct Hx as [Hx|Hx]; [inversion Hx; subst; clear Hx|]); try contradiction;
+             (split; [reflexivity|split; [reflexivity|split; [reflexivity|
+                intros s Hs; vm_compute in Hs; inversion Hs; subst; reflexivity]]])
+         | |- good_op _ (OAdd _) => split; [discriminate|vm_compute; reflexivity]
+         | |- good_op _ (ORemove _ _) => cbn; discriminate
+         | |- good_op _ _ => exact I
+         end.
+Qed.
+
+(** * A multi notification is its single notifications, one at a time *)
+
+(** the single notifications a multi notification is broken into *)
+Definition singles (n : notif) : list notif :=
+  map (clone_with_update n) (n_upd n) ++ map (clone_with_delete n) (n_del n).
+
+Lemma future_guard_off thr now latest ts : thr <= 0 -> future_guard thr now latest ts = false.
+Proof. intros H. unfold future_guard. destruct (Z.ltb_spec 0 thr); [lia|reflexivity]. Qed.
+
+Lemma spec_step_latest_irrelevant thr o now l1 l2 m :
+  thr <= 0 -> spec_leaf_step thr o (LUpd now l1 m) = spec_leaf_step thr o (LUpd now l2 m).
+Proof.
+  intros H. unfold spec_leaf_step. destruct o as [x|]; [|reflexivity].
+  now rewrite !(future_guard_off thr now _ _ H).
+Qed.
+
+Lemma unit_fold_latest_irrelevant thr now q e l1 l2 o :
+  thr <= 0 ->
+  fold_left (spec_leaf_step thr) (unit_events l1 now q e) o =
+  fold_left (spec_leaf_step thr) (unit_events l2 now q e) o.
+Proof.
+  intros H. destruct e as [m|m]; cbn [unit_events]; [|reflexivity].
+  destruct (unit_ok m) as [p|]; [|reflexivity]. destruct (path_eqb q p); [|reflexivity].
+  cbn [fold_left]. now apply spec_step_latest_irrelevant.
+Qed.
+
+Definition unit_of_single (n : notif) (s : notif) : unit_ev :=
+  match n_upd s with [] => UDel s | _ :: _ => UUpd s end.
+
+Lemma units_single_update n u :
+  n_atomic n = false -> units (clone_with_update n u) = [UUpd (clone_with_update n u)].
+Proof. intros H. unfold units, clone_with_update. cbn [n_atomic n_upd n_del]. now rewrite H. Qed.
+
+Lemma units_single_delete n d :
+  n_atomic n = false -> units (clone_with_delete n d) = [UDel (clone_with_delete n d)].
+Proof. intros H. unfold units, clone_with_delete. cbn [n_atomic n_upd n_del]. now rewrite H. Qed.
+
+Lemma units_multi n :
+  n_atomic n = false -> (2 <= List.length (n_upd n) + List.length (n_del n))%nat ->
+  units n = map (fun u => UUpd (clone_with_update n u)) (n_upd n) ++
+            map (fun d => UDel (clone_with_delete n d)) (n_del n).
+Proof.
+  intros Ha Hl. unfold units. rewrite Ha.
+  destruct (n_upd n) as [|u [|u2 us]]; destruct (n_del n) as [|d [|d2 ds]]; cbn in Hl; try lia; reflexivity.
+Qed.
+
+(** the units of the singles, in order, are the units of the multi notification *)
+Lemma singles_units n :
+  n_atomic n = false ->
+  flat_map units (singles n) =
+  map (fun u => UUpd (clone_with_update n u)) (n_upd n) ++
+  map (fun d => UDel (clone_with_delete n d)) (n_del n).
+Proof.
+  intros Ha. unfold singles. rewrite flat_map_app. f_equal.
+  - induction (n_upd n) as [|u us IH]; [reflexivity|]. cbn [map flat_map].
+    now rewrite (units_single_update n u Ha), IH.
+  - induction (n_del n) as [|d ds IH]; [reflexivity|]. cbn [map flat_map].
+    now rewrite (units_single_delete n d Ha), IH.
+Qed.
+
+Lemma seq_leaf now q : forall (l : list notif) t o,
+  thr_of t <= 0 -> wf_tree (t_tree t) ->
+  clean_history t (map (pair now) l) ->
+  lookup (t_tree t) q = o ->
+  forall t0, thr_of t0 = thr_of t ->
+  lookup (t_tree (trun t (map (pair now) l))) q = lookup_after t0 now q (flat_map units l) o.
+Proof.
+  induction l as [|s l IH]; intros t o Hthr Hwf Hcl Ho t0 Ht0; cbn [map trun fold_left flat_map].
+  - exact Ho.
+  - destruct Hcl as [Hc1 Hc2]. fold (trun (tstep t (now, s)) (map (pair now) l)).
+    destruct (tstep_spec t (now, s) Hwf Hc1) as (Hw & Hcfg & _ & Hl).
+    rewrite lookup_after_app.
+    apply (IH (tstep t (now, s))); auto.
+    + unfold thr_of in *. now rewrite Hcfg.
+    + rewrite Hl, Ho. cbn [fst snd]. unfold notif_events, lookup_after. rewrite Ht0.
+      generalize (units s). intros us. generalize o at 1 2. clear -Hthr. induction us as [|e us IH]; intros o; [reflexivity|].
+      cbn [flat_map]. rewrite !fold_left_app, IH. f_equal. now apply unit_fold_latest_irrelevant.
+    + unfold thr_of in *. now rewrite Hcfg.
+Qed.
+
+(** with the future check disabled, a multi notification leaves every leaf
+    exactly as its single notifications do when sent one after the other
+    through the same entry point, updates first, then deletes *)
+Theorem multi_is_sequence t now n q :
+  wf_tree (t_tree t) -> thr_of t <= 0 ->
+  n_atomic n = false -> (2 <= List.length (n_upd n) + List.length (n_del n))%nat ->
+  clean (tres t (now, n)) -> clean_history t (map (pair now) (singles n)) ->
+  lookup (t_tree (tstep t (now, n))) q =
+  lookup (t_tree (trun t (map (pair now) (singles n)))) q.
+Proof.
+  intros Hwf Hthr Ha Hl Hc1 Hc2.
+  destruct (tstep_spec t (now, n) Hwf Hc1) as (_ & _ & _ & Hlk). rewrite Hlk. cbn [fst snd].
+  rewrite (seq_leaf now q (singles n) t (lookup (t_tree t) q) Hthr Hwf Hc2 eq_refl t eq_refl).
+  unfold notif_events, lookup_after. now rewrite (singles_units n Ha), (units_multi n Ha Hl).
+Qed.
+
+(** with a future threshold the two differ: inside a multi notification the
+    latest accepted timestamp does not move until the whole notification is
+    processed, so a later update of the same notification is still judged
+    against the old one *)
+Definition wit_seq_cfg : config := Cfg 2 true [].
+Definition wit_seq_t : target := trun (new_target "t" wit_seq_cfg) [(0, wit_upd 1 ["a"] None "c" 1)].
+Definition wit_seq_n : notif :=
+  Notif 10 (wit_pfx ["a"]) None
+        [Upd (Some (gp_of_names ["b"])) (Some (TInt 1)) 0; Upd (Some (gp_of_names ["c"])) (Some (TInt 2)) 0] [] false.
+
+Lemma multi_is_sequence_refuted :
+  wf_tree (t_tree wit_seq_t) /\ thr_of wit_seq_t = 2 /\
+  clean (tres wit_seq_t (0, wit_seq_n)) /\ clean_history wit_seq_t (map (pair 0) (singles wit_seq_n)) /\
+  lookup (t_tree (tstep wit_seq_t (0, wit_seq_n))) ["a"; "c"] <>
+  lookup (t_tree (trun wit_seq_t (map (pair 0) (singles wit_seq_n)))) ["a"; "c"].
+Proof.
+  assert (Hcl : forall P : Prop, P -> P) by auto.
+  split; [|split; [reflexivity|split; [vm_compute; repeat (constructor; try (intro HH; discriminate HH))|split; [vm_compute; repeat (constructor; try (intro HH; discriminate HH))|]]]].
+  - unfold wit_seq_t. apply (tstep_spec (new_target "t" wit_seq_cfg) (0, wit_upd 1 ["a"] None "c" 1) I). cbv. exact I.
+  - vm_compute. discriminate.
 Qed.
